@@ -80,7 +80,8 @@ def run_potable(text, args):
   import logging
   d = tempfile.mkdtemp(prefix="c13_")
   try:
-    inp, outp = os.path.join(d, "m.aspot"), os.path.join(d, "out.tab")
+    excel = "target : excel" in text
+    inp, outp = os.path.join(d, "m.aspot"), os.path.join(d, "out.xlsx" if excel else "out.tab")
     with open(inp, "w") as f:
       f.write(text)
     argv, err, out = sys.argv, sys.stderr, sys.stdout
@@ -100,7 +101,7 @@ def run_potable(text, args):
       sys.argv, sys.stderr, sys.stdout = argv, err, out
     data = None
     if os.path.exists(outp) and os.path.getsize(outp):
-      if text.split("target : ")[1].split("\n")[0].startswith("excel"):
+      if excel:
         import openpyxl
         wb = openpyxl.load_workbook(outp)
         data = repr([(ws.title, [[c.value for c in row] for row in ws.iter_rows()]) for ws in wb.worksheets])
